@@ -591,6 +591,9 @@ class List(list, base.Symbolic, pg_typing.CustomTyping):
 
     old_value = self.sym_getattr(index)
     super().__delitem__(index)
+    # Detach the removed value from object tree.
+    if isinstance(old_value, base.TopologyAware):
+      old_value.sym_setparent(None)
 
     if flags.is_change_notification_enabled():
       self._notify_field_updates([
@@ -709,7 +712,12 @@ class List(list, base.Symbolic, pg_typing.CustomTyping):
     if self._value_spec and self._value_spec.min_size > 0:
       raise ValueError(
           f'List cannot be cleared: min size is {self._value_spec.min_size}.')
+    removed = list(self.sym_values())
     super().clear()
+    # Detach the removed values from object tree.
+    for old_value in removed:
+      if isinstance(old_value, base.TopologyAware):
+        old_value.sym_setparent(None)
 
   def sort(self, *, key=None, reverse=False) -> None:
     """Sorts the items of the list in place.."""
